@@ -99,7 +99,7 @@ def main():
             "add_only": True,
         },
         "engines": [{"name": "vx", "path": "check.py", "serves_properties": [c["property_id"] for c in checks],
-                     "kind_free_text": "Hypothesis property-based testing, stateful model-based testing, exhaustive small-scope enumeration on 16 cores, atheris coverage-guided fuzzing; failures bucketed by signature, shrunk to plain-data replay files"}],
+                     "kind_free_text": "Hypothesis property-based testing, stateful model-based testing, exhaustive small-scope enumeration on 16 cores; failures bucketed by signature, shrunk to plain-data replay files"}],
         "checks": checks,
         "not_applicable": na,
         "notes": "All checks: cwd=/verif, VERIF_SEED respected, PYTHONHASHSEED pinned to 0 by check.py. Exit 2 = harness error/inconclusive. Known findings: known-findings.txt.",
